@@ -3,6 +3,7 @@ use crate::report::{finish, Ctx};
 use serde_json::Value;
 
 pub mod c01;
+pub mod c02;
 pub mod c03;
 pub mod c03_twohop;
 pub mod c04;
@@ -40,6 +41,7 @@ pub mod c11;
 pub fn run(id: &str, ctx: &Ctx) -> i32 {
     match id {
         "C01" => finish(ctx, c01::run(ctx), Some(&c01::replay)),
+        "C02" => finish(ctx, c02::run(ctx), Some(&c02::replay)),
         "C03" => finish(ctx, c03::run(ctx), Some(&c03::replay)),
         "C04" => finish(ctx, c04::run(ctx), Some(&c04::replay)),
         "C05" => finish(ctx, c05::run(ctx), Some(&c05::replay)),
@@ -68,6 +70,7 @@ pub fn run(id: &str, ctx: &Ctx) -> i32 {
 pub fn replay(id: &str, case: &Value) -> Result<(), String> {
     match id {
         "C01" => c01::replay(case),
+        "C02" => c02::replay(case),
         "C03" => c03::replay(case),
         "C04" => c04::replay(case),
         "C05" => c05::replay(case),
